@@ -98,15 +98,19 @@ def from_permeances(rng):
     basis = gen.tstr(rng, rng.choice(["weight", "molar"]))
     comps, perms, pkg, supplied = [], [], [], []
     same_object = rng.random() < 0.25
+    mixed = not same_object and rng.random() < 0.4      # every Permeance object states its own unit: the caller may mix them
     for _ in range(rng.randrange(2, 6)):
         comps.append(pv.Composition(p=rng.uniform(0.02, 0.98), type=basis))
         v = (gen.logu(rng, 1e-6, 1.0), gen.logu(rng, 1e-6, 1.0))
+        u1 = u2 = units
+        if mixed:
+            u1, u2 = gen.tstr(rng, rng.choice([KG, "SI", "GPU"])), gen.tstr(rng, rng.choice([KG, "SI", "GPU"]))
         # what is SUPPLIED is a raw number in the chosen unit, computed with the specification's factors (Units.tla), not with
         # the library's converter; the Permeance objects are built from those raw numbers
-        raw = (v[0] * to_si_factor(KG, mix.first_component) / to_si_factor(units, mix.first_component),
-               v[1] * to_si_factor(KG, mix.second_component) / to_si_factor(units, mix.second_component))
-        p1 = pv.Permeance(value=raw[0], units=units)
-        p2 = pv.Permeance(value=raw[1], units=units)
+        raw = (v[0] * to_si_factor(KG, mix.first_component) / to_si_factor(u1, mix.first_component),
+               v[1] * to_si_factor(KG, mix.second_component) / to_si_factor(u2, mix.second_component))
+        p1 = pv.Permeance(value=raw[0], units=u1)
+        p2 = pv.Permeance(value=raw[1], units=u2)
         if same_object:
             # ONE Permeance object in both slots of the point: the same number in the caller's unit for both components
             p2 = p1
